@@ -1,7 +1,69 @@
 (* C02 — Python-to-Verilog transpilation preserves the behaviour of behavioural blocks.
-   Statements only; proofs are in Proofs/C02/. *)
-From V Require Import Base.PyInt Model.VSyntax Model.VSem Model.PySyntax Model.PySem Model.Tv Spec.C02 Proofs.C02.Refuted.
+   Translation validation: the validator Model/Tv.v (tv, tv_stmt, tv_block) is PROVED sound here; per run it is applied to
+   the ast of every real method and the parsed text the real transpiler returned for it (py/props/c02.py).
+   Statements only; proofs are in Proofs/C02/.
+   Domain: PySem.pyev / pyexec / py_sim under the guard g_dom are defined iff the values at the positions where fixed-width
+   arithmetic is not a ring homomorphism of Z (operands of // % >> comparisons and/or/not, conditions, shift amounts,
+   values stored in integer variables) lie in [0, 2^31); this is implied by "all intermediate values in [0, 2^31)". *)
+From V Require Import Base.Bits Model.VSyntax Model.VSem Model.PySyntax Model.PySem Model.Tv Spec.C02
+  Proofs.C02.Expr Proofs.C02.Stmt Proofs.C02.Block Proofs.C02.Comb Proofs.C02.Refuted Proofs.C02.Main.
 Local Open Scope string_scope.
+Local Open Scope Z_scope.
+
+(* ---- expressions: in any context (W, sg) that IEEE 1364 can give the expression (W at least its self-determined size, a signed
+   context only if the expression is signed), VSem's value is Python's value modulo 2^W ... *)
+Theorem C02_expr_sound : forall E st env pe re W sg v,
+  rel E st env -> tv E false W sg pe re = true -> pyev g_dom st pe = Some v -> rsize re <= W -> (sg = true -> rsigned re = true) ->
+  reval env W sg re = v mod 2 ^ W.
+Proof. exact expr_sound. Qed.
+(* ... hence Python's value itself when that is in the domain and the context has at least 31 bits (every assignment to an integer) *)
+Theorem C02_expr_exact : forall E st env pe re W sg v,
+  rel E st env -> tv E false W sg pe re = true -> pyev g_dom st pe = Some v -> rsize re <= W -> (sg = true -> rsigned re = true) ->
+  g_dom v = true -> 31 <= W -> reval env W sg re = v.
+Proof. exact expr_exact. Qed.
+(* condition position (if / elif / ternary test / operands of and or not): same truth value *)
+Theorem C02_cond_sound : forall E st env pe re v,
+  rel E st env -> tv_cond E pe re = true -> pyev g_dom st pe = Some v -> g_dom v = true -> (rself env re =? 0) = (v =? 0).
+Proof. exact cond_sound_top. Qed.
+
+(* ---- statements of a clock() body: blocking `=` == attribute / local update, `<=` == prepare (queued in order) *)
+Theorem C02_stmt_sound : forall E, tv_kind E = KClock -> forall ps rs st s st',
+  tv_stmt E ps rs = true -> sinv E st s -> pyexec g_dom (tv_outs E) ps st = Some st' -> sinv E st' (exec rs s).
+Proof. exact stmt_sound. Qed.
+
+(* ---- whole clock() blocks: for EVERY stimulus that pokes input ports and stays in the domain, the elaborated module run by the
+   cycle semantics (power-up, settle, posedge processes, NBA queue, settle) yields exactly Python's trajectory of the observed
+   output ports and integer attributes (row 0 = after power-up / construction), and every settle reaches its fixpoint. *)
+Theorem C02_block_sound : forall b m, b_kind b = KClock -> tv_block b m = true ->
+  exists f, elaborate [m] 200 (m_name m) = inr f /\
+    forall ports attrs steps tr, obs_ok b f ports attrs -> pokes_inputs b steps ->
+      py_sim g_dom b steps ports attrs = (tr, true) -> vsim f (flat_clk f) steps (ports ++ attrs) = (tr, true).
+Proof. exact block_sound. Qed.
+
+(* ---- whole propagate() blocks (puts emitted as `<=` inside `always @*`, iterated by VSem to a fixpoint): for EVERY stimulus of
+   input pokes (no clock cycles) that stays in the domain, the fixpoint is reached after one pass, the stability flag is set, and
+   the output ports carry exactly Python's values after propagate() — including row 0 (Simulator.__init__ propagates once). *)
+Theorem C02_comb_block_sound : forall b m, b_kind b = KPropagate -> tv_block b m = true ->
+  exists f, elaborate [m] 200 (m_name m) = inr f /\
+    forall clkname ports steps tr, obs_okc b f ports -> pokes_inputs b steps -> comb_steps steps ->
+      py_sim g_dom b steps ports [] = (tr, true) -> vsim f clkname steps (ports ++ []) = (tr, true).
+Proof. exact comb_sound. Qed.
+
+Example C02_comb_nonvacuous :
+  match tgt_CombMux with m :: _ => tv_block src_CombMux m = true | [] => False end /\
+  (exists tr, py_sim g_dom src_CombMux mux_steps ["o"] [] = (tr, true) /\ length tr = 4%nat) /\
+  (forall f, elaborate tgt_CombMux 200 "CombMux" = inr f -> obs_okc src_CombMux f ["o"]) /\
+  (pokes_inputs src_CombMux mux_steps /\ comb_steps mux_steps).
+Proof. exact (conj mux_validated (conj mux_in_domain (conj mux_obs mux_steps_ok))). Qed.
+
+(* non-vacuity: a real transpiler output is accepted, a concrete stimulus satisfies every hypothesis *)
+Example C02_block_nonvacuous :
+  match tgt_LastWriteWins with m :: _ => tv_block src_LastWriteWins m = true | [] => False end /\
+  py_sim g_dom src_LastWriteWins lww_steps ["o"] ["s"] = ([[0; 0]; [6; 1]; [63; 1]; [9; 0]], true) /\
+  pokes_inputs src_LastWriteWins lww_steps /\
+  (forall f, elaborate tgt_LastWriteWins 200 "LastWriteWins" = inr f -> obs_ok src_LastWriteWins f ["o"] ["s"]) /\
+  match tgt_MatchFsm with m :: _ => tv_block src_MatchFsm m = true | [] => False end.
+Proof. exact (conj lww_validated (conj lww_in_domain (conj lww_pokes (conj lww_obs matchfsm_validated)))). Qed.
 
 (* ---- silent mistranslations present at the pinned commit (known findings; reproduced on the real transpiler by every run) *)
 Theorem C02_refuted_narrow : refutes src_NarrowCond tgt_NarrowCond "NarrowCond" [([("a", 1); ("b", 1)], 1%nat)].
@@ -17,6 +79,12 @@ Theorem C02_refuted_portname :
   match tgt_PortName with m :: _ => tv_block src_PortName m = false | [] => False end.
 Proof. exact portname_refuted. Qed.
 
+Print Assumptions C02_expr_sound.
+Print Assumptions C02_expr_exact.
+Print Assumptions C02_cond_sound.
+Print Assumptions C02_stmt_sound.
+Print Assumptions C02_block_sound.
+Print Assumptions C02_comb_block_sound.
 Print Assumptions C02_refuted_narrow.
 Print Assumptions C02_refuted_narrow_shift.
 Print Assumptions C02_refuted_boolop_value.
